@@ -63,6 +63,14 @@ def refs : HObj → List Addr
   | [] => []
   | (_, v) :: r => refsV v ++ refs r
 
+/-- addresses reached through a dictionary-valued field only (the arrays inside `hyperparams`) -/
+def dictRefs : HObj → List Addr
+  | [] => []
+  | (_, .dict kvs) :: r => refsD kvs ++ dictRefs r
+  | (_, .none) :: r => dictRefs r
+  | (_, .imm _) :: r => dictRefs r
+  | (_, .ref _) :: r => dictRefs r
+
 /-- `numpy.ndarray.__copy__` / `__deepcopy__`: a fresh buffer with the same contents -/
 def copyArr (h : Heap) (a : Addr) : Heap × Addr := (h ++ [deref h a], h.length)
 
